@@ -15,7 +15,7 @@ import (
 func init() {
 	register(&Property{
 		ID:        "C11",
-		Technique: "codec layout extraction for the metadata entry encoder/decoder compared with each other and the protobuf field table, guard/provenance analysis of the attach site, order typestate on the client's invoke sequence, buffer-provenance check for the encoded bytes",
+		Technique: "codec layout extraction for the metadata entry encoder/decoder compared with each other and the protobuf field table, guard/provenance analysis of the attach site, order typestate on the client's invoke sequence, buffer-provenance check for the encoded bytes; tested-then-dropped error (contradiction) check and interprocedural lock-pairing check over the packages the property is anchored in",
 		Explanation: "Statically decidable part of 'call metadata arrives intact at exactly its RPC': " +
 			"(R1) appendEntry emits, and readEntry/readKeyValue consume, the protobuf encoding of map<string,string> field 1: tag 0x0a, entry length, tag 0x0a, key length, key, tag 0x12, value length, value — in that order, with each announced length being the length of the bytes that follow; decoder bounds are compiler-proved and its loops consume input; " +
 			"(R2) the server attaches decoded metadata to a stream's context only if it was carried by a metadata packet with the same stream id as the invoke being served, and that id/map come only from the metadata branch; " +
@@ -605,6 +605,12 @@ func privateEncodedMetadata(v ssa.Value, fn *ssa.Function, encode, mdGet *types.
 			if ex, ok := an.Resolve(md).(*ssa.Extract); ok {
 				if g, ok := ex.Tuple.(*ssa.Call); ok && an.IsCallTo(g.Common(), mdGet) {
 					if _, isParam := an.Resolve(g.Common().Args[0]).(*ssa.Parameter); isParam {
+						// ... and it is encoded exactly when Get found some: no guard says Get's ok is false here
+						for _, gd := range an.GuardsOf(call.Block()) {
+							if okv, isEx := gd.Cond.(*ssa.Extract); isEx && okv.Tuple == ssa.Value(g) && okv.Index == 1 && !gd.True {
+								return "the map is encoded on the branch where drpcmetadata.Get reported no metadata (its ok result is false): a call that has metadata sends none"
+							}
+						}
 						return ""
 					}
 					return "the metadata map is not read from the call's ctx parameter"
